@@ -437,6 +437,25 @@ func (x *cacheDeco) Done(name string, whileLocked func(sts.Cached)) {
 	defer x.d.inDone.Store(false)
 	x.d.cache.Done(name, whileLocked)
 }
+
+// DoneIfHash: optional method of the real cache (marks done only if the cached
+// version is still the one that was confirmed); forwarded when it exists.
+func (x *cacheDeco) DoneIfHash(name, hash string, whileLocked func(sts.Cached)) {
+	c, ok := x.d.cache.(interface {
+		DoneIfHash(string, string, func(sts.Cached))
+	})
+	if !ok {
+		x.Done(name, whileLocked)
+		return
+	}
+	x.d.act("cache.done", name, false)
+	if cur := x.d.cache.Get(name); cur != nil && cur.GetHash() == hash && !cur.IsDone() {
+		x.d.s.ob.onCacheDone(x.d.n, name, cur)
+	}
+	x.d.inDone.Store(true)
+	defer x.d.inDone.Store(false)
+	c.DoneIfHash(name, hash, whileLocked)
+}
 func (x *cacheDeco) Reset(k string) { x.d.cache.Reset(k) }
 func (x *cacheDeco) Remove(k string) {
 	x.d.act("cache.remove", k, false)
